@@ -26,7 +26,7 @@ for l in out.splitlines():
         lines[cur] = []
     elif cur and l.startswith("violation"):
         lines[cur].append(l)
-dst = f"/verif/seeded/{prop}-{letter}"
+dst = f"/verif/seeded/{prop}-{os.environ.get('MUT_TAG','')}{letter}"
 os.makedirs(dst, exist_ok=True)
 shutil.copy(f"{wt}/_out/{letter}.diff", f"{dst}/patch.diff")
 shutil.copy(f"{wt}/_out/demo_{letter}.rs", f"{dst}/demo.rs")
